@@ -149,6 +149,8 @@ fn main() {
                             gen_dec::parse_under(get("scheme"), &s, false, &mut out);
                         }
                     }
+                    "nid" => gen_misc::nid_exec(get("op"), &unhx(get("in")), &mut out),
+                    "ck" => gen_misc::ck_line(get("kind"), &unhx(get("in")), &mut out),
                     "decmany" | "declist" => {
                         out.push_str(line);
                         out.push('\n');
